@@ -133,8 +133,9 @@ fn run_scope(ctx: &Ctx, sc: &Scope, obs: &Observer) {
                 }
                 let ops: Vec<u32> = path.iter().map(|&i| alphabet[i as usize]).chain([c]).collect();
                 if !vs.is_empty() {
-                    hllm::report(ctx, vs, sc.lg_k, start, &ops);
-                    return Step::Stop;
+                    if hllm::report(ctx, vs, sc.lg_k, start, &ops) {
+                        return Step::Stop;
+                    }
                 }
                 obs(ctx, &n, &|| hllm::replay_json(sc.lg_k, start, &ops));
                 Step::Next(n)
@@ -181,8 +182,9 @@ fn run_orders(ctx: &Ctx, lg_k: u8, alphabet: &[u32], start: &[u32], depth: usize
         let vs = n.offer(c, &mut e);
         if !vs.is_empty() {
             let ops: Vec<u32> = path.iter().map(|&i| alphabet[i as usize]).chain([c]).collect();
-            hllm::report(ctx, vs, lg_k, start, &ops);
-            return Step::Stop;
+            if hllm::report(ctx, vs, lg_k, start, &ops) {
+                return Step::Stop;
+            }
         }
         Step::Next(n)
     });
@@ -283,8 +285,9 @@ fn run_deep(ctx: &Ctx, lg_k: u8, bound: usize, max_len: usize, stride1: usize, s
                     if ops.last() != Some(&c) {
                         ops.push(c);
                     }
-                    hllm::report(ctx, vs, lg_k, &[], &ops);
-                    return false;
+                    if hllm::report(ctx, vs, lg_k, &[], &ops) {
+                        return false;
+                    }
                 }
                 if full {
                     obs(ctx, t, &|| json!({"kind":"hll_run","lg_k":lg_k,"run":rname,"pos":pos,"deviations":trace}));
